@@ -281,7 +281,7 @@ func ruleFragmentPop(c *Ctx, r *Report) {
 			w2 := &Walk{Fn: pf, Assume: assumeAll(atomAssume{mValue(cmp), vBool(true)})}
 			hdr := loopHeaderOf(cmp.Block())
 			w2.Visit = func(in ssa.Instruction, _ map[*ssa.Phi]Val) bool {
-				if in.Block() == hdr && hdr != nil && in == hdr.Instrs[0] && w2.steps > 1 {
+				if in.Block() == hdr && hdr != nil && in == firstNonPhi(hdr) && w2.steps > 1 {
 					return false
 				}
 				if _, ok := in.(*ssa.MapUpdate); ok {
